@@ -73,8 +73,9 @@ fn fixture(cfg: &GenCfg) -> impl Strategy<Value = FixtureSpec> {
         0u8..3,
         0u8..3,
         prop_oneof![8 => Just(Vec::new()), 1 => names_vec(cfg, 1)],
+        prop_oneof![5 => Just(Vec::new()), 1 => names_vec(cfg, 2)],
     )
-        .prop_map(|(name, alias_fn, deps, scope, autouse, body, deco, usefixtures)| FixtureSpec {
+        .prop_map(|(name, alias_fn, deps, scope, autouse, body, deco, usefixtures, body_uses)| FixtureSpec {
             name,
             alias_fn,
             deps,
@@ -84,6 +85,7 @@ fn fixture(cfg: &GenCfg) -> impl Strategy<Value = FixtureSpec> {
             deco,
             tag: 0,
             usefixtures,
+            body_uses,
         })
 }
 
@@ -93,8 +95,9 @@ fn test_spec(cfg: &GenCfg) -> impl Strategy<Value = TestSpec> {
         prop_oneof![3 => Just(Vec::new()), 2 => names_vec(cfg, 2)],
         prop_oneof![4 => Just(Vec::new()), 1 => names_vec(cfg, 2)],
         prop_oneof![5 => Just(false), 1 => Just(true)],
+        prop_oneof![3 => Just(Vec::new()), 1 => names_vec(cfg, 2)],
     )
-        .prop_map(|(params, usefixtures, indirect, is_async)| TestSpec { suffix: 0, params, usefixtures, indirect, is_async })
+        .prop_map(|(params, usefixtures, indirect, is_async, body_uses)| TestSpec { suffix: 0, params, usefixtures, indirect, is_async, body_uses })
 }
 
 fn import_spec(cfg: &GenCfg) -> impl Strategy<Value = ImportSpec> {
@@ -111,14 +114,14 @@ fn import_spec(cfg: &GenCfg) -> impl Strategy<Value = ImportSpec> {
 }
 
 #[derive(Clone, Debug)]
-enum FileRole {
+pub enum FileRole {
     Conftest,
     Test,
     Helper,
     Leaf, // plugin or third party
 }
 
-fn items(cfg: &GenCfg, role: FileRole) -> BoxedStrategy<Vec<Item>> {
+pub fn items(cfg: &GenCfg, role: FileRole) -> BoxedStrategy<Vec<Item>> {
     let fx = fixture(cfg).prop_map(Item::Fixture).boxed();
     let imp = import_spec(cfg).prop_map(Item::Import).boxed();
     let tst = test_spec(cfg).prop_map(Item::Test).boxed();
@@ -319,4 +322,25 @@ pub fn normalise(cfg: &GenCfg, ws: &mut WorkspaceSpec) {
         f.items = out;
     }
     ws.order_keys.truncate(32);
+}
+
+pub fn role_of(loc: &FileLoc) -> FileRole {
+    match loc.kind {
+        FileKind::Conftest => FileRole::Conftest,
+        FileKind::Test(_) => FileRole::Test,
+        FileKind::Helper(_) => FileRole::Helper,
+        _ => FileRole::Leaf,
+    }
+}
+
+/// One item of any kind (used by edit histories; normalise() drops what a file may not contain).
+pub fn any_item(cfg: &GenCfg) -> BoxedStrategy<Item> {
+    let fx = fixture(cfg).prop_map(Item::Fixture).boxed();
+    let imp = import_spec(cfg).prop_map(Item::Import).boxed();
+    let tst = test_spec(cfg).prop_map(Item::Test).boxed();
+    let pm = (names_vec(cfg, 2), 0u8..4).prop_map(|(names, form)| Item::Pytestmark { names, form }).boxed();
+    let cls = (names_vec(cfg, 2), vec(test_spec(cfg), 0..=2))
+        .prop_map(|(usefixtures, tests)| Item::Class { suffix: 0, usefixtures, tests })
+        .boxed();
+    weighted(vec![(5, fx), (if cfg.imports { 2 } else { 0 }, imp), (4, tst), (1, pm), (1, cls)])
 }
